@@ -294,8 +294,8 @@ def size_boundary_rule(F, chk):
                 if not rel:
                     continue
                 op, sa, sbb, _ = rel
-                a_max = any(fl == "max_buffer_size" for _, fl in sa["fields"])
-                b_max = any(fl == "max_buffer_size" for _, fl in sbb["fields"])
+                a_max = any(fl == "max_buffer_size" for _, fl in sa["fields"]) or any(c.endswith("::max_buffer_size") for c in sa["callees"])
+                b_max = any(fl == "max_buffer_size" for _, fl in sbb["fields"]) or any(c.endswith("::max_buffer_size") for c in sbb["callees"])
                 if a_max == b_max:
                     continue
                 # normalise to  value OP max
